@@ -339,7 +339,8 @@ def _pal_loop_inner(vc, L):
     h = c.f['$hash']
 
     yield 'index_untouched_session_clean', SBool.of(db.table is T and s is G(vc, '$session') and (s.view is None or s.view is T) and not s.dirty)
-    yield 'only_the_locked_pack_changes', SBool.of(w.ent is st0.ent and w.isync is st0.isync and w.next_ino is st0.next_ino and w.dirs is st0.dirs)
+    yield 'only_the_locked_pack_changes', SBool.of(w.ent is st0.ent and w.next_ino is st0.next_ino and w.dirs is st0.dirs)
+    yield 'durability_marks_of_other_files_untouched', SBool(w.isync == z3.Store(st0.isync, W.ino.t, z3.Select(w.isync, W.ino.t)))
     yield 'other_files_untouched', SBool(w.idata == z3.Store(st0.idata, W.ino.t, ph.content().t))
     yield 'pack_handle_open_in_append_mode', SBool.of(isinstance(ph, EM.FileObj) and ph.mode == 'ab' and not ph.closed and ph.ino is W.ino)
     yield 'pack_cursor_at_end', ph.kpos == ph.content().length()
@@ -369,7 +370,10 @@ def _pal_loop_inner(vc, L):
         newest = vc.ghost.get('$newest_key')
         if newest is None:
             return [('any', SBool.of(True))]
-        return [('the_object_just_appended', SStr.of(k) == SStr.of(newest), SStr.of(newest)),
+        old_b = vc.ghost['$batch_before_append']
+        same = SStr.of(k) == SStr.of(newest)
+        return [('the_object_just_appended', b_and(same, b_not(old_b.keys.has(newest))), SStr.of(newest)),
+                ('a_key_appended_again_first_row_wins', b_and(same, old_b.keys.has(newest)), SStr.of(newest)),
                 ('an_earlier_object', SStr.of(k) != SStr.of(newest))]
     yield 'batch_rows_designate_what_was_appended', ForallCases(lambda k: B.keys.has(k), batch_cases, batch_conseq)
     yield 'descriptors', SBool.of([f.num for f in w.open_fds if f is not ph.fdrec] == G(vc, '$fds0'))
@@ -398,6 +402,8 @@ class PackAllLoose(CUnit):
     full = False
     variants = 'all'
     tier = 'thorough'
+    # Windows: a loose file that is still being written cannot be opened (PermissionError); the packer skips it
+    profiles = [{'name': 'posix', 'os.name': 'posix'}, {'name': 'windows', 'os.name': 'nt', 'sharing_violations': True}]
     loops = {
         0: Loop(0, _pal_loop_chunks, havoc=_pal_havoc_existing, fingerprint='chunk in chunk_iterator(loose_objects, size=self._IN_SQL_MAX_LENGTH)'),
         1: Loop(1, _pal_loop_rows, havoc=_pal_havoc_existing, fingerprint='res in session.execute(stmt)'),
@@ -506,6 +512,7 @@ class PackAllLooseQuick(PackAllLoose):
     mode = 'defaults'
     variants = 'bool'
     tier = 'quick'
+    profiles = None
     props = ('C05', 'C06')          # every-change runs: only under the two crash properties (cost: ~9 minutes on 14 cores)
     verify_only = True
 
